@@ -2296,23 +2296,35 @@ func c17KindViaHelper(p *fw.Prog, info *types.Info, call *ast.CallExpr) (kind st
 // member): in package introspection, a local declared without an initial value whose type is a named integer type of
 // the package that has a constant equal to zero is read only on paths on which it has been assigned.
 func c17ZeroValuedKindsAreAssignedBeforeRead(r *fw.Run) {
-	p := r.Prog
 	r.Rule("C17-R20", "in the introspection generator a local of an enumeration type whose zero value is a legitimate member (SCALAR) and that is declared without a value is read only on paths on which it has been assigned")
-	pk := p.Pkg("introspection")
+	zeroValuedKindsAssignedBeforeRead(r, "C17-R20", "introspection", 1)
+}
+
+// zeroValuedKindsAssignedBeforeRead is the rule body, for one package.
+func zeroValuedKindsAssignedBeforeRead(r *fw.Run, rule, alias string, minTypes int) {
+	p := r.Prog
+	pk := p.Pkg(alias)
 	if pk == nil {
-		r.Error("C17-R20: package introspection not loaded")
+		r.Error(rule + ": package " + alias + " not loaded")
 		return
 	}
 	zeroIsMember := func(t types.Type) bool {
 		nt, ok := t.(*types.Named)
-		if !ok || nt.Obj().Pkg() != pk.Types {
+		if !ok || nt.Obj().Pkg() == nil {
 			return false
 		}
 		if b, isB := nt.Underlying().(*types.Basic); !isB || b.Info()&types.IsInteger == 0 {
 			return false
 		}
-		for _, c := range fw.ConstsOfType(pk.Types, nt) {
+		for _, c := range fw.ConstsOfType(nt.Obj().Pkg(), nt) {
 			if c.Val().ExactString() == "0" {
+				// a zero member that says "nothing" is the safe design, not a member one can be mistaken for
+				low := strings.ToLower(c.Name())
+				for _, w := range []string{"unknown", "invalid", "none", "undefined", "unspecified", "notset", "default"} {
+					if strings.Contains(low, w) {
+						return false
+					}
+				}
 				return true
 			}
 		}
@@ -2324,9 +2336,9 @@ func c17ZeroValuedKindsAreAssignedBeforeRead(r *fw.Run) {
 			nTypes++
 		}
 	}
-	r.Expect("C17-R20", "enumeration types of package introspection whose zero value is a member", nTypes, 1)
+	r.Expect(rule, "enumeration types of package "+alias+" whose zero value is a member", nTypes, minTypes)
 	n := 0
-	for _, fi := range p.Funcs("introspection") {
+	for _, fi := range p.Funcs(alias) {
 		info := fi.Info()
 		tracked := map[types.Object]bool{}
 		fw.WalkAll(fi.Decl.Body, func(nd ast.Node) bool {
@@ -2356,7 +2368,7 @@ func c17ZeroValuedKindsAreAssignedBeforeRead(r *fw.Run) {
 				reported[id.Pos()] = true
 				n++
 				o := info.Uses[id]
-				r.Check(st.Must("assigned:"+o.Name()), "C17-R20", fi.Name()+"/assigned-before-read:"+o.Name(), p.Pos(id.Pos()), o.Name()+" in "+fi.Name()+" has been assigned on every path to this read",
+				r.Check(st.Must("assigned:"+o.Name()), rule, fi.Name()+"/assigned-before-read:"+o.Name(), p.Pos(id.Pos()), o.Name()+" in "+fi.Name()+" has been assigned on every path to this read",
 					o.Name()+" is read on a path on which it still holds the zero value of its type, which is the member SCALAR: a switch over node kinds without a default leaves it there for every node it did not expect — `directive @Role(is: Role) on FIELD_DEFINITION  enum Role {ADMIN USER}  type Query { role: Role }`: the index finds the directive definition first, no arm matches, and `Query.role.type.kind` is SCALAR while `__type(name:\"Role\").kind` is ENUM")
 				return true
 			})
@@ -2388,7 +2400,7 @@ func c17ZeroValuedKindsAreAssignedBeforeRead(r *fw.Run) {
 		in.Run(nil)
 	}
 	if n == 0 {
-		r.Pass("C17-R20", "introspection/no-zero-valued-kind-local-is-read", "-", "no function of package introspection reads a local of such a type that was declared without a value", false)
+		r.Pass(rule, alias+"/no-zero-valued-kind-local-is-read", "-", "no function of package "+alias+" reads a local of such a type that was declared without a value", false)
 	}
-	r.Note("C17-R20: %d reads of zero-valued kind locals checked", n)
+	r.Note(rule+": %d reads of zero-valued kind locals checked in "+alias, n)
 }
